@@ -12,7 +12,7 @@ from .. import hazards
 
 RULE = ("schemas rich in input types (nested, recursive through nullable / list edges, @oneOf, lists to depth 3, custom scalars, "
         "enums; field and variable names with Rust keywords and every case style) x operations declaring 1-8 variables of random "
-        "input type expressions x valid assignments (all-none, all-some, random; nullable members given as null or left out; "
+        "input type expressions (queries, mutations and subscriptions) x valid assignments (all-none, all-some, random; nullable members given as null or left out; "
         "list lengths 0-3; every @oneOf member) x skip_serializing_none {off,on} x normalization {none,rust} x schema format "
         "{SDL, JSON}. Each serialised `variables` object is judged against the SCHEMA by an independent validator, not only "
         "against the assignment. The value space of the generated types is also probed from outside: single-point invalid "
@@ -27,7 +27,7 @@ def gen_cases(run, n, prefix="c"):
     out = []
     for i in range(n):
         schema = gen_input_schema(rng)
-        kind = "mutation" if rng.random() < 0.25 else "query"
+        kind = ["query", "query", "mutation", "query", "subscription"][i % 5]     # variables are declared the same way on every operation kind
         op = gen_var_operation(schema, rng, name=rng.choice(["Op1", "GetThing", "Q9x"]), kind=kind)
         doc = {"operations": [op], "fragments": []}
         skip = (i % 2 == 1)
